@@ -393,6 +393,18 @@ def checkCats (db : Db) : List (Sym × Sym × Int) → Except ErrKind Unit
     | .error e => .error e
     | .ok _ => checkCats db rest
 
+/-- the validation loop of `Quantity._CreateDerived`, also run by `ObtainQuantity(dict)` on a cache miss:
+every unit must belong to the quantity type of its category -/
+def validateItems (db : Db) : List (Sym × Sym × Int) → Except ErrKind Unit
+  | [] => .ok ()
+  | (c, u, _) :: rest =>
+    match catQType db c with
+    | .error e => .error e
+    | .ok qt =>
+      match db.checkQuantityTypeUnit qt u with
+      | .error e => .error e
+      | .ok _ => validateItems db rest
+
 /-- `ObtainQuantity(dict, None, caption)`; when the cache misses the new `Quantity` copies the dict and its
 lists once more -/
 def obtainDict (db : Db) (es : List (Sym × Ref)) (caption : Sym) : M Nat := do
@@ -405,6 +417,7 @@ def obtainDict (db : Db) (es : List (Sym × Ref)) (caption : Sym) : M Nat := do
     | none =>
       -- `Quantity.__init__`, derived branch: the quantity keeps ITS OWN copy of the mapping, with new
       -- `[unit, exp]` lists (`OrderedDict((cat, list(unit_and_exp)) …)`)
+      liftE (validateItems db items)          -- "only a miss pays for it"
       let own ← copyPairs es
       liftE (checkCats db items)
       let q ← newQuant ⟨own, caption, true, items⟩
@@ -413,17 +426,6 @@ def obtainDict (db : Db) (es : List (Sym × Ref)) (caption : Sym) : M Nat := do
 
 /-- `Quantity.CreateEmpty()` -/
 def emptyQuantity (db : Db) : M Nat := obtainDict db [] 0
-
-/-- the validation loop of `Quantity._CreateDerived` -/
-def validateItems (db : Db) : List (Sym × Sym × Int) → Except ErrKind Unit
-  | [] => .ok ()
-  | (c, u, _) :: rest =>
-    match catQType db c with
-    | .error e => .error e
-    | .ok qt =>
-      match db.checkQuantityTypeUnit qt u with
-      | .error e => .error e
-      | .ok _ => validateItems db rest
 
 /-- `Quantity._CreateDerived(dict, validate, caption)`: validates, copies the lists once more and
 goes through `ObtainQuantity` -/
@@ -754,6 +756,9 @@ inductive Out
   | fval (r : Ref) (shared : Bool)        -- a FractionValue
   | bool (b : Bool)
   | unit
+  /-- an exception raised by a validation call (`CheckValidity`, `ValidateValues`): unlike every other failure it
+  is not traceless, because the Array has cached it (`_validity_exception`) before raising -/
+  | raised (e : ErrKind)
 deriving DecidableEq, Repr
 
 /-- `Array.GetAbstractValue(unit)` -/
@@ -1009,6 +1014,32 @@ def validateArray (db : Db) (i : Nat) (o : QObj) (c : Ref) : M (Except ErrKind U
       | .error e => some e)
     pure r
 
+/-- where the `values` argument of a public `ValidateValues(values, quantity)` call comes from -/
+inductive ValSrc
+  | own                                   -- `x.GetValues()`
+  | member (j : Nat)                      -- `pool[j].GetValues()`: another Array's container
+  | literal (k : Kind) (xs : List Rat)    -- a container the caller has just made
+deriving Repr
+
+/-- the public call `x.ValidateValues(values, quantity)` on an Array / FixedArray with ANY values and ANY
+quantity (`qsrc = none`: its own): the given data is validated and the verdict is cached on `x`; the code
+reads its arguments and writes nothing but the memo -/
+def validateWith (db : Db) (i : Nat) (vals : ValSrc) (qsrc : Option Nat) : M (Except ErrKind Unit) := do
+  let ob ← getObj i
+  let own ← (match ob with
+             | .array q c => pure (q, c)
+             | .fixed _ q c => pure (q, c)
+             | _ => failM .other : M (Nat × Ref))        -- no `ValidateValues` on Scalar / FractionScalar
+  let r ← (match vals with
+           | .own => pure own.2
+           | .member j => do let v ← valuesOf (← getObj j); pure v.1
+           | .literal k xs => allocM (.seq k xs) : M Ref)
+  let q ← (match qsrc with
+           | none => pure own.1
+           | some k => do let o ← getObj k; pure o.q : M Nat)
+  let o ← getQ q
+  validateArray db i o r
+
 /-- `CheckValidity()` of every class, as an outcome -/
 def checkValidityE (db : Db) (i : Nat) : M (Except ErrKind Unit) := do
   let ob ← getObj i
@@ -1208,6 +1239,7 @@ inductive Op
   | pickle (i : Nat)
   | isValid (i : Nat)
   | checkValidity (i : Nat)
+  | validateWith (i : Nat) (vals : ValSrc) (qsrc : Option Nat)
   | scribble (i : Nat) (unit : Option Sym) (how : Scribble)
   | format (i : Nat)
   | changingIndex (i : Nat) (idx : Int) (value : Operand) (useValueUnit : Bool)
@@ -1235,7 +1267,14 @@ def exec (db : Db) : Op → M Out
   | .copy i => do let _ ← getObj i; pure (.obj i false)          -- `return self`
   | .pickle i => fresh (pickleObj db i)
   | .isValid i => do let b ← isValid db i; pure (.bool b)
-  | .checkValidity i => do checkValidity db i; pure .unit
+  | .checkValidity i => do
+    match (← checkValidityE db i) with
+    | .ok _ => pure .unit
+    | .error e => pure (.raised e)
+  | .validateWith i vals qsrc => do
+    match (← validateWith db i vals qsrc) with
+    | .ok _ => pure .unit
+    | .error e => pure (.raised e)
   | .scribble i u how => getValuesAndScribble db i u how
   | .format i => do format i; pure .unit
   | .changingIndex i idx v b => fresh (changingIndex db i idx v b)
